@@ -98,6 +98,7 @@ def class_programs(seed, n):
             "pick": Fn(["t"], Block([], If(V("t"), Block([], F(3, 1)), Block([], Bin("*", F(2, 0), F(5, 1))))), "float", ["bool"]),
             "forever": Fn(["n"], Block([Let("i", I(0)), Loop(Block([Expr(If(Bin(">", V("i"), V("n")), Block([Ret(V("i"))]))), Expr(Asg(V("i"), I(1), "+="))]))]), "int", ["int"]),
             "main": Fn([], Block([Let("r", Call("calc", I(a), I(b))), Print(V("r"), Call("walk", I(b)), Call("pick", B(a % 2 == 0)), Call("forever", I(c)), Call("scan", I(c % 4))),
+                                  Print(Bin("*", I(7), I(0)), Bin("*", I(12), I(0)), Bin("*", I(0), I(5)), Bin("*", I(1), I(1)), Bin("*", I(9), I(1)), Bin("*", I(0), I(0))),
                                   Let("l", List(I(a), I(b), I(c))), Print(Bin("+", Idx(V("l"), I(0)), Idx(V("l"), I(2))), Bin(cmpop, Idx(V("l"), I(1)), I(5))),
                                   Let("o", Obj(p=I(a), q=F(b, 0))), Print(Bin("+", Mem(V("o"), "p"), I(1)), Bin("*", Mem(V("o"), "q"), F(1, 1)), V("g1"), V("g2"))])),
         }
@@ -164,14 +165,17 @@ def run(args):
     base_seed = C.seed() * 1000
     treqs = []
     for p in usable:
-        src, _ = P.render(p)
-        treqs.append({"op": "transform", "id": len(treqs), "a": {"src": src, "seeds": [base_seed + k for k in range(nseeds)], "passes": passes,
+        # (written with the parentheses the operator table requires and no others: the transformer leaves a parenthesised
+        # expression alone, and the printer has to get the precedence of what the transformer builds right)
+        src, _ = P.render(p, minimal=True)
+        ns = nseeds * 4 if p["feats"].get("family", "").startswith("class") else nseeds      # (the programs written for the class get more seeds)
+        treqs.append({"op": "transform", "id": len(treqs), "a": {"src": src, "seeds": [base_seed + k for k in range(ns)], "passes": passes,
                                                                    "singletons": p.get("host") or {}}})
     tres = pool.map(treqs, timeout=60)
     reqs, meta = [], []
     for p, tr in zip(usable, tres):
         feat = {"family": p["feats"].get("family", "?")}
-        src = P.render(p)[0]
+        src = P.render(p, minimal=True)[0]
         rep.count()
         if "r" not in tr:
             rep.fail(dict(feat, kind="hostcrash", stage="transform", panic=sem.panic_class((tr.get("crash") or {}).get("stderr", ""))), {"program": src})
